@@ -66,6 +66,18 @@ def check_trim_carry_ownership(prog: Program, res: Result, rule: str, exit_rule:
             return cur
 
         IN = forward(cfg, 0, transfer, max)
+        # what a tag stores into the carry is the right-hand marker of a token: `<token>.wc[-1]`
+        for st_ in ast.walk(m.node):
+            if isinstance(st_, ast.Assign) and any(isinstance(t, ast.Attribute) and t.attr == "trim_carry" and isinstance(t.value, ast.Name) and t.value.id == stream_name for t in st_.targets):
+                v_ = st_.value
+                idx_ = v_.slice if isinstance(v_, ast.Subscript) and isinstance(v_.value, ast.Attribute) and v_.value.attr == "wc" else None
+                is_last = isinstance(idx_, ast.UnaryOp) and isinstance(idx_.op, ast.USub) and isinstance(idx_.operand, ast.Constant) and idx_.operand.value == 1
+                site_ = f"{m.file}:{st_.lineno} {m.qualname}"
+                what_ = f"{tc.name}.parse stores a token's right-hand marker in the trim carry"
+                if is_last:
+                    res.ok(rule, site_, what_, norm(v_))
+                else:
+                    res.fail(rule, file=m.file, line=st_.lineno, qualname=m.qualname, construct=f"{tc.name}.parse: trim carry set from `{norm(v_, 40)}`", message=f"{tc.name}.parse stores `{norm(v_, 40)}` in stream.trim_carry: the carry must be the right-hand marker (`<token>.wc[-1]`) of the tag just consumed, otherwise the text after that tag is trimmed by its *left* marker (or some other marker)", what=what_)
         if exit_rule is not None:
             # the carry handed back to the parser must be the marker of the tag the stream is left on (the end tag):
             # the last carry event on every path to a return is a parse_block (it stops on that tag and records its marker)
